@@ -160,9 +160,46 @@ def check_c08(rep, tier, seed, wd, replay):
             o["chunksize"] = g0.r.choice([1, 1, 7, 64])       # many flushes, out-of-order across chunks
         cases.append({"id": "c08_%d" % i, "o": o, "calls": g0.calls(0, 40, legal=True), "legal": True})
     go, model, distinct, hist, nd = writer_corr(rep, cases, wd, ["new", "calls", "stats", "indexes", "writes"], {"C08"})
-    cov = summarize(rep, len(cases), len(distinct),
-                    "writer workloads biased to log time 0, descending/repeated times across chunk flushes, message-less chunks and channels; compared with the model: Writer.Statistics after Close, index list lengths, file bytes (hence the statistics record); oracle: aggregates recomputed from the decoded file (independent decoder) vs Writer.Statistics and vs the statistics record",
-                    [cw.case_replay(c) for c in cases[:2]], {"input_distribution": hist, "disagreements": nd})
+    # ---- Info on every produced file
+    icases = []
+    for c in cases:
+        g = go.get(c["id"])
+        if g and g["new"] == "ok" and all(x == "ok" for x in g["calls"]) and not c["o"]["skipmagic"]:
+            f = {"id": c["id"], "o": c["o"], "calls": c["calls"], "g": g, "file": b"".join(g["writes"])}
+            icases.append({"id": c["id"] + "_info", "file": f["file"], "ropts": [], "ops": [["info"]], "base": f})
+    go_i, model_i, nd2 = read_corr(rep, icases, wd, "c08i")
+    ninfo = 0
+    for c in icases:
+        gi = go_i.get(c["id"])
+        probs = []
+        d = decode_written(c["base"])
+        if gi and gi["ops"] and d:
+            o = gi["ops"][0]
+            if o["panic"]:
+                probs.append("Info crashed: %s" % o["panic"])
+            elif o["head"] == "info ok":
+                ninfo += 1
+                S = d["summary"]
+                lines = o["info"]
+                got = {k: [l for l in lines if l.split(" ")[0] == k] for k in ("ischema", "ichannel", "ci", "ai", "mx", "stats")}
+                if sorted(int(l.split(" ")[1]) for l in got["ischema"]) != sorted(x["id"] for x in S["schemas"]):
+                    probs.append("Info.Schemas does not list every schema of the summary")
+                if sorted(int(l.split(" ")[1]) for l in got["ichannel"]) != sorted(x["id"] for x in S["channels"]):
+                    probs.append("Info.Channels does not list every channel of the summary")
+                if sorted(int(l.split(" ")[3]) for l in got["ci"]) != sorted(x["offset"] for x in S["chunk_indexes"]):
+                    probs.append("Info.ChunkIndexes lists %d chunks, the summary has %d chunk index records" % (len(got["ci"]), len(S["chunk_indexes"])))
+                if [int(l.split(" ")[1]) for l in got["ai"]] != [x["offset"] for x in S["attachment_indexes"]]:
+                    probs.append("Info.AttachmentIndexes does not list every attachment index")
+                if [int(l.split(" ")[1]) for l in got["mx"]] != [x["offset"] for x in S["metadata_indexes"]]:
+                    probs.append("Info.MetadataIndexes does not list every metadata index")
+                if S["statistics"] is not None:
+                    true = mcapspec.true_statistics(d)
+                    if not got["stats"] or cw.stats_of_line(got["stats"][0][6:]) != true:
+                        probs.append("Info.Statistics %s differs from the true aggregates %s" % (got["stats"][:1], true))
+        report_case(rep, c, probs[:3], cr.read_replay)
+    cov = summarize(rep, len(cases) + len(icases), len(distinct),
+                    "writer workloads biased to log time 0, descending/repeated times across chunk flushes, message-less chunks and channels; compared with the model: Writer.Statistics after Close, index list lengths, file bytes (hence the statistics record), and Reader.Info of every produced file; oracle: aggregates recomputed from the decoded file (independent decoder) vs Writer.Statistics, vs the statistics record, vs Info.Statistics; Info lists every schema/channel/chunk index/attachment index/metadata index the summary holds",
+                    [cw.case_replay(c) for c in cases[:2]], {"input_distribution": hist, "info_reads": ninfo, "disagreements": nd + nd2})
     return cov, []
 
 
@@ -1496,3 +1533,341 @@ def check_c12(rep, tier, seed, wd, replay):
                     "each logical content rendered by the reference encoder in 3 legal layouts: different chunk partitions (incl. empty chunks and unchunked messages), schema/channel records at top level / inside the first chunk / repeated in every chunk, all permutations of summary groups sampled, optional sections (statistics, attachment index, message indexes, summary offsets, CRCs) present or not; read by lexer, Info, indexed, scan, LogTime, Reverse+topic; compared with the model; oracle: same content from every layout (indexed reads compared between layouts that keep chunk indexes and chunk every message)",
                     [cl.lex_replay(c)[:4] for c in lcases[:2]], {"contents": len(groups), "layout_comparisons": ncmp, "disagreements": nd1 + nd2})
     return cov, []
+
+
+# ------------------------------------------------------------------ C19: ROS 1 message definitions
+PRIMS = ["bool", "int8", "uint8", "int16", "uint16", "int32", "uint32", "int64", "uint64", "float32", "float64", "string", "time", "duration", "char", "byte"]
+SEP = "=" * 80
+
+
+def gen_type_graph(r, depth):
+    """types: name -> list of (ref_written, field_name, array_suffix, target or None)"""
+    pkgs = ["pkg", "geo", "std_msgs"]
+    types = {}
+    order = []
+
+    def mk(level, pkg):
+        name = "%s/T%d" % (pkg, len(order))
+        order.append(name)
+        fields = []
+        for i in range(r.randint(0, 5)):
+            arr = r.choice(["", "", "[]", "[3]", "[0]", "[12]"])
+            fname = r.choice(["x", "y_1", "data", "Z9", "a_b_c", "f%d" % i])
+            if level < depth and r.random() < 0.4:
+                if r.random() < 0.15:
+                    if "std_msgs/Header" not in types:
+                        types["std_msgs/Header"] = [("uint32", "seq", "", None), ("time", "stamp", "", None), ("string", "frame_id", "", None)]
+                        order.append("std_msgs/Header")
+                    fields.append(("Header", fname, arr, "std_msgs/Header"))
+                else:
+                    cp = r.choice([pkg, pkg, r.choice(pkgs)])
+                    child = mk(level + 1, cp)
+                    short = child.split("/")[1]
+                    written = short if (cp == pkg and r.random() < 0.6) else child
+                    fields.append((written, fname, arr, child))
+            else:
+                fields.append((r.choice(PRIMS), fname, arr, None))
+        types[name] = fields
+        return name
+    top = mk(0, "pkg")
+    return top, types, order
+
+
+def render_def(r, top, types, order, style):
+    def lines_of(name):
+        out = []
+        for (tref, fname, arr, target) in types[name]:
+            if style >= 1 and r.random() < 0.3:
+                out.append(r.choice(["# a comment", "", "   ", "int32 CONST=5", "string S = hello # c", "#"]))
+            sep = " " if style == 0 else r.choice([" ", "  ", " \t", "\t ", "   \t  "])
+            lead = "" if style < 2 else r.choice(["", " ", "\t", "  "])
+            trail = "" if style < 2 else r.choice(["", " ", "  # trailing comment", "\t"])
+            out.append(lead + tref + arr + sep + fname + trail)
+        return out
+    secs = ["\n".join(lines_of(top))]
+    for name in order:
+        if name != top:
+            secs.append("MSG: " + name + "\n" + "\n".join(lines_of(name)))
+    return ("\n" + SEP + "\n").join(secs) + ("\n" if r.random() < 0.5 else "")
+
+
+def expected_tree(types, name):
+    def ty(tref, arr, target):
+        rec = "1" if target else "0"
+        sub = expected_tree(types, target) if target else ""
+        if arr:
+            n = arr[1:-1]
+            fixed = int(n) if n else 0
+            return "%s:1:%d:0:[%s:0:0:%s:-:{%s}]:{}" % ((tref + arr).encode().hex(), fixed, tref.encode().hex(), rec, sub)
+        return "%s:0:0:%s:-:{%s}" % (tref.encode().hex(), rec, sub)
+    return ",".join("%s=%s" % (fname.encode().hex(), ty(tref, arr, target)) for (tref, fname, arr, target) in types[name])
+
+
+@prop("C19")
+def check_c19(rep, tier, seed, wd, replay):
+    import random
+    r = random.Random(seed * 1000 + 19)
+    n = 600 if tier == "quick" else 20000
+    cases = []
+    for i in range(n):
+        top, types, order = gen_type_graph(r, r.randint(0, 5))
+        style = r.randint(0, 2)
+        text = render_def(r, top, types, order, style)
+        cases.append({"id": "c19g%d" % i, "pkg": b"pkg", "def": text.encode(), "expect": expected_tree(types, top), "kind": "graph"})
+    hostile = [b"Foo x\n" + SEP.encode() + b"\nMSG: pkg/Foo\nFoo y\n",
+               b"A a\n" + SEP.encode() + b"\nMSG: pkg/A\nB b\n" + SEP.encode() + b"\nMSG: pkg/B\nA a\n",
+               b"int32]3[ x", b"int32[ x", b"int32] x", b"int32[abc] x", b"int32[-4] x", b"int32[99999999999999999999] x",
+               b"Header h", b"other/Thing t", b"x", b"= x", b"", b"\n\n", b"int32\tx", b"int32 \xc2\xa0x", b"\xc2\xa0int32 x\xe2\x80\x83",
+               b"a/b/c d", b"int32 9x y", b"float64[3][4] m", b"string s=abc", b"T t\n" + SEP.encode() + b"\nMSG: pkg/T\n" + SEP.encode() + b"\nMSG: pkg/T\nint8 v\n",
+               b"MSG: x\n=\nint32 a"]
+    for i, h in enumerate(hostile):
+        for pk in (b"pkg", b"", b"a/b"):
+            cases.append({"id": "c19h%d_%s" % (i, pk.hex() or "e"), "pkg": pk, "def": h, "kind": "hostile"})
+    nmut = n // 2
+    for i in range(nmut):
+        base = r.choice(cases[:n])["def"]
+        b = bytearray(base)
+        for _ in range(r.randint(1, 4)):
+            k = r.random()
+            if not b:
+                b = bytearray(b"x")
+            pos = r.randrange(len(b))
+            if k < 0.3:
+                b[pos] = r.choice(b"[]=#/ \t\n=MSG:")
+            elif k < 0.5:
+                del b[pos]
+            elif k < 0.8:
+                b[pos:pos] = bytes([r.choice(b"[]=#/ \t\n")])
+            else:
+                b[pos] = r.randrange(256)
+        cases.append({"id": "c19m%d" % i, "pkg": b"pkg", "def": bytes(b), "kind": "mutated"})
+    for i in range(n // 6):
+        cases.append({"id": "c19r%d" % i, "pkg": b"p", "def": bytes(r.choice(b"ab[] =#/\n\tMSG:0123") for _ in range(r.randint(0, 60))), "kind": "random"})
+    scripts = [(c["id"], ["msgdef %s %s" % (cm.hx(c["pkg"]), cm.hx(c["def"]))]) for c in cases]
+    go, culprits = cm.run_isolated(os.path.join(cm.BUILD, "impl"), "ros1msg", scripts, wd, "c19go", timeout=60, mem_bytes=8 << 30)
+    model, mcr = cm.run_sharded(os.path.join(cm.BUILD, "model"), "ros1msg", scripts, wd, "c19model")
+    for cmd, rc, err in mcr:
+        rep.add_violation("executor-crash", "%s exited %s: %s" % (cmd, rc, err), [], failing_input=False)
+    st = {"graph": 0, "ok": 0, "err": 0, "tree_checked": 0}
+    nd = 0
+    for c in cases:
+        rp = ["case %s" % c["id"], "msgdef %s %s" % (cm.hx(c["pkg"]), cm.hx(c["def"])), "end"]
+        if c["id"] in culprits:
+            rep.add_violation("oracle", "case %s: ParseMessageDefinition killed the process: %s" % (c["id"], culprits[c["id"]]), rp)
+            continue
+        g = (go.get(c["id"]) or [None])[0]
+        m = (model.get(c["id"]) or [None])[0]
+        probs = []
+        if g is None:
+            continue
+        if g.startswith("msgdef panic"):
+            probs.append("ParseMessageDefinition panicked: %s" % g)
+        if g.startswith("msgdef ok"):
+            st["ok"] += 1
+        else:
+            st["err"] += 1
+        if c["kind"] == "graph":
+            st["graph"] += 1
+            want = "msgdef ok " + c["expect"]
+            st["tree_checked"] += 1
+            if g.rstrip() != want.rstrip():
+                probs.append("parsed tree differs from the generating type graph")
+        for p in probs:
+            rep.add_violation("oracle", "case %s: %s" % (c["id"], p), rp)
+        if g != m:
+            nd += 1
+            rep.add_violation("correspondence", "case %s: impl %s | model %s" % (c["id"], g[:150], (m or "")[:150]), rp, failing_input=bool(probs))
+    cov = summarize(rep, len(cases), len(set(c["def"] for c in cases)),
+                    "definitions rendered from random type graphs (depth 0-5, all primitives, fixed/variable arrays of primitives and records, qualified/unqualified/Header references) in three whitespace/comment/constant styles, compared with the generating graph (oracle) and with the model; plus hand-made hostile definitions (self/mutual recursion, unbalanced brackets, Atoi corner cases, non-ASCII white space, duplicate sections), mutated definitions and random bytes run in isolated children (60 s deadline, 8 GiB cap); distinct = distinct definition texts",
+                    [[c["def"].decode(errors="replace")[:300]] for c in cases[:2]], dict(st, disagreements=nd, hostile=len(hostile), mutated=nmut))
+    return cov, ["exponential expansion of shared nested types is inherent to the tree representation and not checked"]
+
+
+# ------------------------------------------------------------------ C18: ROS conversions
+import rosbag_gen as rg  # noqa: E402
+
+
+def run_bag_cases(cases, wd, tag, isolated=True):
+    impl = os.path.join(cm.BUILD, "impl")
+    model_exe = os.path.join(cm.BUILD, "model")
+    lib = cm.lib_id()
+
+    def lines(c, model=False, go=None):
+        ls = [gw.wopts_line(c["o"])]
+        if model:
+            ls.append("lib " + cm.hx(lib))
+            for comp, plain, payload, end in (go or {}).get("chunks", []):
+                if comp != b"" and end == "eof":
+                    ls.append("comp %s %s" % (cm.hx(plain), cm.hx(payload)))
+            for key, val in (c.get("_dec") or {}).items():
+                ls.append("dec %s %s %s %s %s" % (key[0], key[1], key[2], val[0], val[1]))
+        ls.append("bag " + cm.hx(c["bag"]))
+        return ls
+    go_raw, culprits = cm.run_isolated(impl, "bag", [(c["id"], lines(c)) for c in cases], wd, tag + "go", timeout=90, mem_bytes=12 << 30)
+    go = {}
+    for k, v in go_raw.items():
+        d = cw.parse_write_obs(v)
+        d["bag"] = next((l[4:] for l in v if l.startswith("bag ")), None)
+        go[k] = d
+    pending = list(cases)
+    model = {}
+    table = {}
+    for rnd in range(10):
+        raw, mc = cm.run_sharded(model_exe, "bag", [(c["id"], lines(c, True, go.get(c["id"]))) for c in pending], wd, "%smodel%d" % (tag, rnd))
+        for cmd, rc, err in mc:
+            sys.stderr.write("model crashed: %s %s %s\n" % (cmd, rc, err[-300:]))
+        again = []
+        needs = set()
+        for c in pending:
+            v = raw.get(c["id"], [])
+            nd = [tuple(l.split(" ")[1:]) for l in v if l.startswith("need ")]
+            if nd and rnd < 9:
+                needs.update(nd); again.append((c, nd))
+            else:
+                d = cw.parse_write_obs(v)
+                d["bag"] = next((l[4:] for l in v if l.startswith("bag ")), None)
+                model[c["id"]] = d
+        if not again:
+            break
+        q = [("q%d" % i, ["dec %s %s %s" % nd]) for i, nd in enumerate(n for n in needs if n not in table)]
+        if q:
+            draw, _ = cm.run_sharded(impl, "decomp", q, wd, "%sdec%d" % (tag, rnd))
+            for ls in draw.values():
+                for l in ls:
+                    f = l.split(" ")
+                    if f[0] == "dec":
+                        table[(f[1], f[2], f[3])] = (f[4], f[5])
+        pending = []
+        for c, nd in again:
+            dec = dict(c.get("_dec") or {})
+            for n in nd:
+                if n in table:
+                    dec[n] = table[n]
+            c["_dec"] = dec
+            pending.append(c)
+    return go, model, culprits
+
+
+def lz4_compress_fn(wd):
+    cache = {}
+
+    def f(data):
+        if data not in cache:
+            raw, _ = cm.run_sharded(os.path.join(cm.BUILD, "impl"), "compress", [("c", ["compress lz4 " + cm.hx(data)])], wd, "lz4c%d" % len(cache), nshards=1)
+            cache[data] = cm.unhx([l for l in raw["c"] if l.startswith("compressed")][0].split(" ")[2])
+        return cache[data]
+    return f
+
+
+@prop("C18")
+def check_c18(rep, tier, seed, wd, replay):
+    import random
+    r = random.Random(seed * 1000 + 18)
+    n = 80 if tier == "quick" else 1500
+    lz4 = lz4_compress_fn(wd)
+    g0 = gw.Gen(seed * 1000 + 18)
+    cases = []
+    for i in range(n):
+        B = rg.gen_bag(r)
+        o = g0.wopts(skipmagic=False)
+        if o["comp"] == "xor":
+            o["comp"], o["custom"] = "", False
+        cases.append({"id": "c18b%d" % i, "o": o, "bag": rg.render(B, lz4), "B": B, "kind": "valid"})
+    # corruptions of valid bags
+    ncor = 0
+    for c in list(cases[: (40 if tier == "quick" else 600)]):
+        data = c["bag"]
+        for j in range(6):
+            k = r.random()
+            if k < 0.2:
+                bad = data[:r.randrange(len(data))]
+            elif k < 0.3:
+                bad = r.choice([b"", b"#ROSBAG", b"#ROSBAG V1.2\n" + data[13:], b"not a bag at all"])
+            else:
+                b = bytearray(data)
+                pos = r.randrange(13, len(b) - 4)
+                val = r.choice([0, 1, 0xFFFFFFFF, 0x80000000, 0x7FFFFFFF, len(data), 5])
+                if k < 0.7:
+                    # aim at a length prefix: find a plausible one near pos
+                    b[pos:pos + 4] = val.to_bytes(4, "little")
+                else:
+                    b[pos] = r.randrange(256)
+                bad = bytes(b)
+            ncor += 1
+            cases.append({"id": "%s_bad%d" % (c["id"], j), "o": c["o"], "bag": bad, "kind": "corrupt"})
+    for name, bad in (("empty", b""), ("shortmagic", b"#ROS"), ("emptyop", b"#ROSBAG V2.0\n" + rg.record([(b"op", b"")], b"")),
+                      ("shortconn", b"#ROSBAG V2.0\n" + rg.record([(b"op", b"\x02"), (b"conn", b"\x01"), (b"time", b"\x00" * 8)], b"d")),
+                      ("shorttime", b"#ROSBAG V2.0\n" + rg.record([(b"op", b"\x07"), (b"conn", b"\x00" * 4), (b"topic", b"/t")], rg.field(b"type", b"T") + rg.field(b"md5sum", b"1") + rg.field(b"message_definition", b"")) +
+                       rg.record([(b"op", b"\x02"), (b"conn", b"\x00" * 4), (b"time", b"\x00" * 3)], b"d")),
+                      ("hugehdr", b"#ROSBAG V2.0\n" + (0x80000001).to_bytes(4, "little") + b"abc"),
+                      ("hugedata", b"#ROSBAG V2.0\n" + rg.record([(b"op", b"\x02")], b"")[:-4] + (0x80000000).to_bytes(4, "little")),
+                      ("fieldlen", b"#ROSBAG V2.0\n" + (12).to_bytes(4, "little") + (500).to_bytes(4, "little") + b"op=\x02abc" + (0).to_bytes(4, "little")),
+                      ("msgnoconn", b"#ROSBAG V2.0\n" + rg.msg_record({"conn": 5, "secs": 1, "nsecs": 2, "data": b"x"}))):
+        o = g0.wopts(skipmagic=False, comp="", custom=False)
+        cases.append({"id": "c18x_" + name, "o": o, "bag": bad, "kind": "corrupt"})
+    go, model, culprits = run_bag_cases(cases, wd, "c18")
+    st = {"valid": 0, "corrupt": 0, "converted_messages": 0, "errors": 0}
+    nd = 0
+    for c in cases:
+        rp = ["case %s" % c["id"], gw.wopts_line(c["o"]), "bag " + cm.hx(c["bag"]), "end"]
+        if c["id"] in culprits:
+            rep.add_violation("oracle", "case %s: Bag2MCAP terminated the process: %s" % (c["id"], culprits[c["id"]]), rp)
+            continue
+        g, m = go.get(c["id"]), model.get(c["id"])
+        if g is None:
+            continue
+        probs = []
+        if g["bag"] is None or (g["bag"] or "").startswith("panic"):
+            probs.append("Bag2MCAP panicked: %s" % g["bag"])
+        elif c["kind"] == "valid":
+            st["valid"] += 1
+            if g["bag"] != "ok":
+                probs.append("valid bag rejected: %s" % g["bag"])
+            else:
+                try:
+                    d = mcapspec.decode(b"".join(g["writes"]), cw.plain_lookup(g))
+                    exp = rg.expected(c["B"])
+                    got = [(m2["channel_id"], m2["log_time"], m2["publish_time"], m2["data"], m2["sequence"]) for m2 in d["messages"]]
+                    want = [(e["conn"], e["secs"] * 10**9 + e["nsecs"], e["secs"] * 10**9 + e["nsecs"], e["data"], i) for i, e in enumerate(exp)]
+                    st["converted_messages"] += len(want)
+                    if got != want:
+                        probs.append("converted messages differ from the bag's messages (%d vs %d)" % (len(got), len(want)))
+                    conn_by_id = {cn["id"]: cn for cn in c["B"]["conns"]}
+                    used = set(e["conn"] for e in exp)
+                    keys = {}
+                    for cid, ch in d["channels"].items():
+                        cn = conn_by_id.get(cid)
+                        if cn is None:
+                            probs.append("channel %d has no connection" % cid); continue
+                        f = dict(cn["fields"])
+                        meta = sorted((k, v) for k, v in f.items() if k not in (b"type", b"message_definition"))
+                        if ch["topic"] != cn["topic"] or sorted(ch["metadata"]) != meta or ch["message_encoding"] != b"ros1":
+                            probs.append("channel %d does not carry the connection's topic/header fields" % cid)
+                        sc = d["schemas"].get(ch["schema_id"])
+                        if sc is None or sc["name"] != f[b"type"] or sc["data"] != f[b"message_definition"] or sc["encoding"] != b"ros1msg":
+                            probs.append("schema of channel %d does not carry the connection's type and definition" % cid)
+                        keys.setdefault((f[b"type"], f[b"md5sum"]), set()).add(ch["schema_id"])
+                    if any(len(v) != 1 for v in keys.values()) or len(set(x for v in keys.values() for x in v)) != len(keys):
+                        probs.append("not exactly one schema per distinct type/md5sum")
+                    if not used <= set(d["channels"]):
+                        probs.append("a connection with messages has no channel")
+                    if d["header"]["profile"] != b"ros1":
+                        probs.append("profile is not ros1")
+                except mcapspec.SpecError as e:
+                    probs.append("converted file is not a valid MCAP: %s" % e)
+        else:
+            st["corrupt"] += 1
+            if g["bag"] != "ok":
+                st["errors"] += 1
+        for p in probs[:3]:
+            rep.add_violation("oracle", "case %s: %s" % (c["id"], p), rp)
+        d = None
+        if m is not None:
+            d = cw.diff_obs(g, m, ["bag", "writes"])
+        if d:
+            nd += 1
+            rep.add_violation("correspondence", "case %s: %s" % (c["id"], d), rp, failing_input=bool(probs))
+    cov = summarize(rep, len(cases), len(set(c["bag"] for c in cases)),
+                    "generated ROS 1 bags (1-5 connections incl. ids 0 and 65535, repeated connection records, shared and distinct types/md5, empty and 300-byte messages, times up to 2^32-1 s, chunks none/lz4/bz2 or unchunked records) converted under random MCAP writer options; corruptions of valid bags (bad/short magic, truncation, hostile header and field lengths, byte noise) and hand-made hostile records, each conversion in an isolated child; output bytes compared with the bag+writer model; oracle: the converted file decodes (independent decoder) to one message per bag message in order with the right times/bytes/channel/schema; invalid input gives an error, never a crash/exit",
+                    [[c["bag"][:200].hex()] for c in cases[:2]], dict(st, disagreements=nd, corrupted=ncor))
+    return cov, ["lz4/bz2 bag chunk decoders are oracles", "db3: SQLite engine and file system are inputs of the model (partial)"]
